@@ -65,7 +65,7 @@ CFG = {
         "not through its private shard slice. StatsJSON text is not compared. No axioms."
     ),
     "rule": (
-        "one case = one generated history run on a fresh real cache. Sequential: non-trivial when at least one Get/Peek hit and at least one "
+        "one case = one generated history run on a fresh real cache. Class seq/std/fault (60 per quick run, after every other class): a third of the calls are Set / SetAndGetRemoved with a value whose Size() panics (or a nil Value), recovered by the harness and followed by a Peek of that key; a call that panicked in the user callback has not returned, so the ideal cache has not performed it: the Peek outcome and the full snapshot are compared with the model in which nothing happened (on the unchanged code Size() is read before any mutation). Sequential: non-trivial when at least one Get/Peek hit and at least one "
         "eviction occurred; wide: non-trivial when a Set made the number of present keys not grow while keys were present (a shard evicted); "
         "concurrent: non-trivial when >= 2 goroutines ran and at least one eviction occurred; burst: non-trivial when >= 2 goroutines ran and at least one key is present at quiescence; SetIfAbsent-only burst: non-trivial when >= 2 goroutines ran; concurrent SetAndGetRemoved: non-trivial when >= 2 goroutines ran and something was evicted; Stats readers: non-trivial when more than one distinct answer was kept; first-touch batch: non-trivial when >= 2 goroutines ran (one case = one batch of trials); churn: non-trivial when >= 2 goroutines ran. distinct = distinct Coq case terms"
     ),
